@@ -20,7 +20,7 @@ RULE = ('exhaustive over A,B in [-R,R] x {nth-child, nth-last-child, nth-of-type
         'of element types over {a,b} of length 1..L x 4 interleavings (none, blank text, comments, mixed incl. '
         'CDATA/PI) x 4 placements (inside a parent, document top level, inside a detached parent, parentless '
         'element), each (A,B) rendered in 2-6 accepted spellings, `of S` with 5 filters, the 6 keyword forms; '
-        'quick R=3 L=5, thorough R=7 L=7; plus sampled |A|,|B| <= 10^4.  Non-trivial = expected set neither empty '
+        'quick R=3 L=5, thorough R=7 L=7; plus sampled |A|,|B| up to 10^30 under a CPU budget, and namespace-aware trees whose siblings share a qualified name across different namespaces.  Non-trivial = expected set neither empty '
         'nor all siblings; distinct = distinct (pseudo, A, B, of, sequence, interleaving, placement).')
 ASSUMPTIONS = [
     'positions are counted among element siblings sharing the same parent object (the document object for top-level '
@@ -307,6 +307,15 @@ def run_unit(u):
                 for k in kids:
                     if k.prefix is None:
                         k.ns = 'urn:v:d'
+            # the same qualified name in another namespace: a sibling that re-declares the default namespace or re-binds a prefix
+            for k in kids:
+                r = rng.random()
+                if r < .15 and k.prefix is None:
+                    k.nsdecl, k.ns = {'': 'urn:v:e'}, 'urn:v:e'
+                    bump('same_name_other_namespace')
+                elif r < .3 and k.prefix == 'x':
+                    k.nsdecl, k.ns = {'x': 'urn:v:x2'}, 'urn:v:x2'
+                    bump('same_name_other_namespace')
             nsmap = rng.choice([{'': NSX}, {'': 'urn:v:d', 'x': NSX}, {'x': NSX, 's': NS_SVG}, {'': NS_SVG, 'q': NSX}, None])
             try:
                 case = cases.Case([root], rng.choice(['xml', 'api-xml']), ['doc'], nsmap=nsmap)
